@@ -13,6 +13,7 @@ import (
 	"go/token"
 	"go/types"
 	"sort"
+	"strings"
 
 	"golang.org/x/tools/go/ssa"
 )
@@ -293,6 +294,9 @@ func reachableUnderPhi(fn *ssa.Function, target ssa.Instruction, atom func(cond 
 				return bTrue
 			}
 		}
+		if call, ok := v.(*ssa.Call); ok && predicateCallee(call) != nil {
+			return predicate3(call, func(w ssa.Value) bool3 { return eval(w, env, d+1) }, 0)
+		}
 		return bUnknown
 	}
 	var dfs func(b, prev *ssa.BasicBlock, env map[ssa.Value]bool3) bool
@@ -412,4 +416,201 @@ func iterationOutcomes(start *ssa.BasicBlock, eval func(cond ssa.Value) (known, 
 	}
 	walk(start, true)
 	return out
+}
+
+// ---- predicate helpers -------------------------------------------------------
+//
+// A condition may be written as a call to a small boolean helper of the
+// repository ("if writeDenied(remoteWrite, item) {…}"). The evaluators of this
+// file (and the loop simulation of c02_merge.go) then evaluate the helper's body
+// under the same valuation of leaf conditions, with the helper's parameters
+// standing for the arguments of the call.
+
+// predicateCallee: the statically known unexported repository function with a
+// body and a single boolean result that call invokes, or nil.
+func predicateCallee(call *ssa.Call) *ssa.Function {
+	h := call.Call.StaticCallee()
+	if h == nil || h.Blocks == nil || !strings.HasPrefix(fnPkgPath(h), repoMod) || isExportedFn(originOf(h)) {
+		return nil
+	}
+	res := h.Signature.Results()
+	if res.Len() != 1 || !isBoolType(res.At(0).Type()) || len(h.Blocks) > 40 {
+		return nil
+	}
+	return h
+}
+
+func predicateArg(h *ssa.Function, call *ssa.Call, par *ssa.Parameter) ssa.Value {
+	args := argsWithRecv(&call.Call)
+	for i, q := range h.Params {
+		if q == par && i < len(args) {
+			return args[i]
+		}
+	}
+	return nil
+}
+
+// predicateLeaves: the leaf conditions the helper's result depends on, with
+// parameters replaced by the call's arguments.
+func predicateLeaves(call *ssa.Call, known func(ssa.Value) bool, depth int) []ssa.Value {
+	h := predicateCallee(call)
+	if h == nil || depth > 3 {
+		return nil
+	}
+	var out []ssa.Value
+	seen := map[ssa.Value]bool{}
+	var collect func(v ssa.Value, d int)
+	collect = func(v ssa.Value, d int) {
+		v, _ = normCond(v, true)
+		if seen[v] || d > 8 {
+			return
+		}
+		seen[v] = true
+		switch x := v.(type) {
+		case *ssa.Phi:
+			for _, e := range x.Edges {
+				collect(e, d+1)
+			}
+			return
+		case *ssa.Parameter:
+			if a := predicateArg(h, call, x); a != nil {
+				out = append(out, a)
+			}
+			return
+		case *ssa.Call:
+			if !known(x) && predicateCallee(x) != nil {
+				out = append(out, predicateLeaves(x, known, depth+1)...)
+				return
+			}
+		}
+		if _, isK := constBool(v); isK {
+			return
+		}
+		out = append(out, v)
+	}
+	for _, b := range h.Blocks {
+		switch last := b.Instrs[len(b.Instrs)-1].(type) {
+		case *ssa.If:
+			collect(last.Cond, 0)
+		case *ssa.Return:
+			collect(last.Results[0], 0)
+		}
+	}
+	return out
+}
+
+// predicate3 evaluates the helper's result: leaf gives the value of a leaf
+// condition in the caller's terms (bUnknown if it is free). Unknown branch
+// conditions fork; the result is known only if all feasible returns agree.
+func predicate3(call *ssa.Call, leaf func(v ssa.Value) bool3, depth int) bool3 {
+	h := predicateCallee(call)
+	if h == nil || depth > 3 {
+		return bUnknown
+	}
+	var ev func(v ssa.Value, choice map[*ssa.Phi]ssa.Value, d int) bool3
+	ev = func(v ssa.Value, choice map[*ssa.Phi]ssa.Value, d int) bool3 {
+		if d > 20 {
+			return bUnknown
+		}
+		if b, ok := constBool(v); ok {
+			return b3(b)
+		}
+		switch x := v.(type) {
+		case *ssa.UnOp:
+			if x.Op == token.NOT {
+				switch ev(x.X, choice, d+1) {
+				case bTrue:
+					return bFalse
+				case bFalse:
+					return bTrue
+				}
+				return bUnknown
+			}
+		case *ssa.Phi:
+			if e, ok := choice[x]; ok {
+				return ev(e, choice, d+1)
+			}
+			return bUnknown
+		case *ssa.Parameter:
+			if a := predicateArg(h, call, x); a != nil {
+				return leaf(a)
+			}
+			return bUnknown
+		case *ssa.Call:
+			if l := leaf(x); l != bUnknown {
+				return l
+			}
+			if predicateCallee(x) != nil {
+				return predicate3(x, func(w ssa.Value) bool3 {
+					// values of the nested helper's caller (this helper) are evaluated here
+					return ev(w, choice, d+1)
+				}, depth+1)
+			}
+			return bUnknown
+		}
+		return leaf(v)
+	}
+	const (
+		mF = 1
+		mT = 2
+		mU = 4
+	)
+	var walk func(b, prev *ssa.BasicBlock, choice map[*ssa.Phi]ssa.Value, onPath map[*ssa.BasicBlock]bool, steps int) int
+	walk = func(b, prev *ssa.BasicBlock, choice map[*ssa.Phi]ssa.Value, onPath map[*ssa.BasicBlock]bool, steps int) int {
+		if steps > 80 || onPath[b] {
+			return mU
+		}
+		onPath[b] = true
+		defer delete(onPath, b)
+		if prev != nil {
+			idx := -1
+			for i, pb := range b.Preds {
+				if pb == prev {
+					idx = i
+				}
+			}
+			c2 := map[*ssa.Phi]ssa.Value{}
+			for k, v := range choice {
+				c2[k] = v
+			}
+			for _, ins := range b.Instrs {
+				ph, ok := ins.(*ssa.Phi)
+				if !ok {
+					break
+				}
+				if idx >= 0 && idx < len(ph.Edges) {
+					c2[ph] = ph.Edges[idx]
+				}
+			}
+			choice = c2
+		}
+		switch last := b.Instrs[len(b.Instrs)-1].(type) {
+		case *ssa.Return:
+			switch ev(last.Results[0], choice, 0) {
+			case bTrue:
+				return mT
+			case bFalse:
+				return mF
+			}
+			return mU
+		case *ssa.If:
+			switch ev(last.Cond, choice, 0) {
+			case bTrue:
+				return walk(b.Succs[0], b, choice, onPath, steps+1)
+			case bFalse:
+				return walk(b.Succs[1], b, choice, onPath, steps+1)
+			}
+			return walk(b.Succs[0], b, choice, onPath, steps+1) | walk(b.Succs[1], b, choice, onPath, steps+1)
+		case *ssa.Jump:
+			return walk(b.Succs[0], b, choice, onPath, steps+1)
+		}
+		return mU
+	}
+	switch walk(h.Blocks[0], nil, map[*ssa.Phi]ssa.Value{}, map[*ssa.BasicBlock]bool{}, 0) {
+	case mT:
+		return bTrue
+	case mF:
+		return bFalse
+	}
+	return bUnknown
 }
